@@ -223,6 +223,10 @@ def repr_of_library_vocabulary(check, tier):
 
 
 def run(check, tier, seed):
+    from pyvc.verify import verify
+    import contracts.valuemodel as VM
+    for c in VM.ALL:            # this property's contracts are stated over the executor's value model of Chunk / FmtStr: the real constructors and
+        verify(c, tier, check, prefix="C19")      # accessors must behave as that model says (same obligations as in C13, decided here too)
     repr_all_dicts(check, tier)
     repr_of_library_vocabulary(check, tier)
     long_inputs(check, tier)
